@@ -33,7 +33,8 @@
    harness/c19.py.  It is proved below under exactly the two hypotheses that exclude them. *)
 From Coq Require Import ZArith List Bool.
 From Batchie Require Import Model.Orchestrate Proofs.C19Base Proofs.C19Canon Proofs.C19Step Proofs.C19Main
-  Proofs.C19Invocation Proofs.C19InvocationThm Generated.SrcOrchestrate Proofs.C19Source.
+  Proofs.C19Invocation Proofs.C19InvocationThm Generated.SrcOrchestrate Proofs.C19Source
+  Generated.SrcOrchMain Proofs.C19SourceMain Generated.SrcOrchCmd Proofs.C19SourceCmd.
 Import ListNotations.
 
 (* For EVERY crash schedule (any number of crashes, at any event of any call), batch size, number of
@@ -340,29 +341,29 @@ Print Assumptions C19_model_is_source_examine_not_unrepaired.
    examine; everything it reads from the output directory it reads from the tree as it is at that moment
    (tree_after f done), in particular the test screen and the thetas are looked for AFTER the job directory has been
    cleared and re-created. *)
-Theorem C19_model_is_source_run_next_retrospective_step : forall (f : fs) (bs : Z),
-  src_run_next_retrospective_step f SInput bs = result_of_plan Retro bs (plan_of Retro true bs f).
+Theorem C19_model_is_source_run_next_retrospective_step : forall (f : fs) (extra : eargs) (bs : Z),
+  src_run_next_retrospective_step f SInput extra bs = result_of_plan Retro bs (plan_of Retro true bs f).
 Proof. exact src_run_next_retro_is_model. Qed.
 Print Assumptions C19_model_is_source_run_next_retrospective_step.
 
 (* run_next_prospective_step, the whole function: the same, its return value is current_plate_idx < batch_size - 1 *)
-Theorem C19_model_is_source_run_next_prospective_step : forall (f : fs) (bs : Z),
-  src_run_next_prospective_step f SInput bs = result_of_plan Prosp bs (plan_of Prosp true bs f).
+Theorem C19_model_is_source_run_next_prospective_step : forall (f : fs) (extra : eargs) (bs : Z),
+  src_run_next_prospective_step f SInput extra bs = result_of_plan Prosp bs (plan_of Prosp true bs f).
 Proof. exact src_run_next_prosp_is_model. Qed.
 Print Assumptions C19_model_is_source_run_next_prospective_step.
 
 (* the value handed back to main(): whenever the model's call_returns says that a call returned b (it was not interrupted,
    the script did not raise, the pipeline's exit status was 0), b is what the translated function returns *)
-Theorem C19_model_is_source_call_returns : forall md bs n f e b,
+Theorem C19_model_is_source_call_returns : forall md bs n f e extra b,
   call_returns md bs (snd (attempt md true bs n f e)) = Some b ->
-  exists acts, src_run_next md f bs = SOk (b, acts).
+  exists acts, src_run_next md f extra bs = SOk (b, acts).
 Proof. exact call_returns_is_source. Qed.
 Print Assumptions C19_model_is_source_call_returns.
 
 (* non-vacuity: on the tree of the refutation witness (batch size 2, steps (0,0), (0,1) complete, iter_1 empty) the translated
    retrospective step clears and re-creates iter_1/plate_0 and launches it from the advanced screen of (0,1) *)
 Example C19_source_step_on_witness :
-  src_run_next_retrospective_step tree_empty_iter SInput 2
+  src_run_next_retrospective_step tree_empty_iter SInput [] 2
   = SOk (true, [ARmTree (1, 0); AMkIter 1; AMkPlate (1, 0);
                 ALaunch (1, 0) (LFirst (SFile (0, 1) KAdvanced) (SFile (0, 0) KTraining))])%Z.
 Proof. vm_compute. reflexivity. Qed.
@@ -398,3 +399,193 @@ Theorem C19_model_is_source_get_selected_plates : forall (f : fs) (i : Z),
   src_get_selected_plates (f, i) = SOk (match selected_plates f i with [] => None | l => Some l end).
 Proof. exact src_get_selected_is_model. Qed.
 Print Assumptions C19_model_is_source_get_selected_plates.
+
+(* ---- main(): the mode dispatch and the while-loop, translated (Generated/SrcOrchMain.v, configuration C19_MAIN) ----
+   src_main n fuel argv extra w is main() run in the world w = (output directory, crash schedule that is left, calls so far):
+   `args, remaining_args = get_args()` yields (argv, extra); args.mode selects which TRANSLATED function the variable run_next
+   holds (src_run_next_retrospective_step / src_run_next_prospective_step); the while-loop (recursion on `fuel`, Orchestrate.mwhile)
+   calls it in the world (world_call: the function runs on the tree as it is now, the next schedule entry decides how far it
+   gets, exactly the rule of `attempt`; the value it hands back is the one the translated function returns) and leaves the loop
+   when `not should_run_again`.  mres_of_ires reads the model's invocation record as main()'s outcome: MOk world when the last
+   call returned False (IReturned), MEnd IRaised world when a call did not return (an exception propagates out of main()),
+   MEnd IExhausted world when the observation ends. *)
+
+(* for sufficient fuel - at least the number of times the loop body is started - main() IS the model's invocation, for EVERY
+   tree, schedule, batch size, operator arguments: same final tree, same remaining schedule, same calls, same end *)
+Theorem C19_model_is_source_main : forall md n fuel argv extra f sched calls0,
+  a_mode argv = modename_of md ->
+  (iterations (invocation md true (a_batch_size argv) n f sched) <= fuel)%nat ->
+  src_main n fuel argv extra (mkw f sched calls0)
+  = mres_of_ires calls0 (invocation md true (a_batch_size argv) n f sched).
+Proof. exact src_main_is_invocation. Qed.
+Print Assumptions C19_model_is_source_main.
+
+(* a --mode argparse's `choices` would not admit: ValueError before any call, the world is untouched *)
+Theorem C19_model_is_source_main_unknown_mode : forall n fuel argv extra w z,
+  a_mode argv = NOther z -> src_main n fuel argv extra w = MEnd IRaised w.
+Proof. exact src_main_unknown_mode. Qed.
+Print Assumptions C19_model_is_source_main_unknown_mode.
+
+(* the observation window bounds the loop: more fuel than schedule entries is always sufficient *)
+Theorem C19_model_is_source_main_observation_window : forall md n fuel argv extra f sched calls0,
+  a_mode argv = modename_of md -> (length sched < fuel)%nat ->
+  src_main n fuel argv extra (mkw f sched calls0)
+  = mres_of_ires calls0 (invocation md true (a_batch_size argv) n f sched).
+Proof. exact src_main_is_invocation_window. Qed.
+Print Assumptions C19_model_is_source_main_observation_window.
+
+(* NO fuel hypothesis on reachable trees: from any tree a crash schedule leads to, for ANY further schedule (however long),
+   fuel = call_bound (retrospective: steps not yet completed + 1 <= n + 1; prospective: what is left of the current batch
+   <= batch size) suffices - the model bounds the number of calls main() makes *)
+Theorem C19_model_is_source_main_fuel_discharged : forall (bs n : nat), (1 <= bs)%nat -> (1 <= n)%nat ->
+  forall md sched0 sched argv extra calls0 fuel,
+  Forall (fun e => entry_ok e = true) sched0 -> Forall (fun e => entry_ok e = true) sched ->
+  a_mode argv = modename_of md -> a_batch_size argv = Z.of_nat bs ->
+  let f := fst (script_run md true (Z.of_nat bs) n [] sched0) in
+  (match md with Retro => S (n - length (completed f)) | Prosp => bs - length (completed f) mod bs end <= fuel)%nat ->
+  src_main n fuel argv extra (mkw f sched calls0)
+  = mres_of_ires calls0 (invocation md true (Z.of_nat bs) n f sched).
+Proof. exact src_main_fuel_discharged. Qed.
+Print Assumptions C19_model_is_source_main_fuel_discharged.
+
+(* C19_invocation_finishes_batch_and_stops, said of the translated main() with fuel = the batch size: it returns normally
+   after exactly bs - c mod bs calls, the successful launches of the steps c .. to the end of the current batch, and leaves the
+   rest of the schedule untouched *)
+Theorem C19_model_is_source_main_finishes_batch_and_stops : forall (bs n : nat), (1 <= bs)%nat -> (1 <= n)%nat ->
+  forall sched0 e rest argv extra fuel,
+  Forall (fun e => entry_ok e = true) sched0 -> entry_ok e = true -> (4 + length (e_order e) <= e_k e)%nat -> (bs <= n)%nat ->
+  a_mode argv = NProspective -> a_batch_size argv = Z.of_nat bs -> (bs <= fuel)%nat ->
+  let f := fst (script_run Prosp true (Z.of_nat bs) n [] sched0) in
+  let c := length (completed f) in
+  let m := (bs - c mod bs)%nat in
+  (forall w s, plan_of Prosp true (Z.of_nat bs) f <> PNamed w s) ->
+  exists w', src_main n fuel argv extra (mkw f (repeat e m ++ rest) []) = MOk w'
+    /\ w_sched w' = rest
+    /\ map launch_key (w_calls w') = map (ideal_key Prosp bs) (seq c m)
+    /\ completed (w_fs w') = ideal Prosp bs n (c + m).
+Proof. exact src_main_finishes_batch. Qed.
+Print Assumptions C19_model_is_source_main_finishes_batch_and_stops.
+
+(* C19_retro_invocation_stops_iff_finished, said of the translated main() with fuel = n + 1, for ANY schedule: a main() that
+   returns normally has completed all n steps and every call before the returning one was a successful launch; once all n steps
+   are complete main() makes one call, changes nothing and returns *)
+Theorem C19_model_is_source_main_retro_stops_iff_finished : forall (bs n : nat), (1 <= bs)%nat -> (1 <= n)%nat ->
+  forall sched0 sched argv extra fuel,
+  Forall (fun e => entry_ok e = true) sched0 -> Forall (fun e => entry_ok e = true) sched ->
+  a_mode argv = NRetrospective -> a_batch_size argv = Z.of_nat bs -> (S n <= fuel)%nat ->
+  let f := fst (script_run Retro true (Z.of_nat bs) n [] sched0) in
+  (forall w', src_main n fuel argv extra (mkw f sched []) = MOk w' ->
+     completed (w_fs w') = crash_free Retro bs n /\
+     exists pre, w_calls w' = pre ++ [GDone] /\ Forall (fun g => exists s l ps, g = GLaunch s l ps true) pre) /\
+  (completed f = crash_free Retro bs n -> sched <> [] ->
+     exists w', src_main n fuel argv extra (mkw f sched []) = MOk w' /\ w_fs w' = f /\ w_calls w' = [GDone]).
+Proof. exact src_main_retro_stops. Qed.
+Print Assumptions C19_model_is_source_main_retro_stops_iff_finished.
+
+(* what world_call (the one primitive of main()'s configuration that is not a name) says of a call, in the model's terms: the
+   model's attempt on the current tree, and the value call_returns says it hands back *)
+Theorem C19_model_is_source_main_call_is_attempt : forall md n f sched calls0 extra bs,
+  world_call n (src_stepfn md) (mkw f sched calls0) OutDir SInput extra bs
+  = match sched with
+    | [] => MEnd IExhausted (mkw f [] calls0)
+    | e :: rest =>
+        let a := attempt md true bs n f e in
+        let w1 := mkw (fst a) rest (calls0 ++ [snd a]) in
+        match call_returns md bs (snd a) with Some v => MOk (v, w1) | None => MEnd IRaised w1 end
+    end.
+Proof. exact world_call_is_attempt. Qed.
+Print Assumptions C19_model_is_source_main_call_is_attempt.
+
+(* non-vacuity: the translated main(), retrospective, batch size 2, 3 plates, never interrupted, fuel 4: three launches and a
+   fourth call that returns False; main() returns with one schedule entry left (cf. C19_retro_invocation_returns) *)
+Example C19_source_main_retro_returns :
+  match src_main 3 4 (mka NRetrospective 2) [] (mkw [] [full; full; full; full; full] []) with
+  | MOk w => map (call_returns Retro 2) (w_calls w) = [Some true; Some true; Some true; Some false]
+             /\ length (w_sched w) = 1%nat /\ completed (w_fs w) = crash_free Retro 2 3
+  | _ => False
+  end.
+Proof. vm_compute. repeat split; reflexivity. Qed.
+
+(* ... prospective, batch size 3, after a crash before the launch of plate 1 and the operator's removal of the directory: the
+   translated main() with fuel 3 makes 3 - 1 = 2 calls and returns (cf. C19_rerun_mid_batch_two_calls); with fuel 1 the
+   fuel runs out, which is no Python behaviour *)
+Example C19_source_main_rerun_mid_batch :
+  let f := fst (script_run Prosp true 3 4 [] [full; mke 3 all_kinds; full]) in
+  (match src_main 4 3 (mka NProspective 3) [] (mkw f [full; full; full; full] []) with
+   | MOk w => length (w_calls w) = 2%nat /\ length (w_sched w) = 2%nat
+   | _ => False
+   end) /\
+  src_main 4 1 (mka NProspective 3) [] (mkw f [full; full; full; full] []) = MNoFuel.
+Proof. vm_compute. repeat split; reflexivity. Qed.
+
+(* ---- the four run_* command builders, translated (Generated/SrcOrchCmd.v, configurations C19_RUN_INITIAL etc.) ----
+   The translated run_next_* functions above CALL these translations (src_run_initial_plate ...), not a launch primitive.  A
+   command line is the list of its words (string literals as their code points, get_main_nf_file(), screen paths, the job
+   directory, ...); `+ extra_args`, the optional `--excludes=` word, the logged ' '.join (TypeError on a None item) and
+   subprocess.check_call come from the translation.  check_call's meaning reads the words the way main.nf and the three
+   workflows do (Orchestrate.launch_of_words: --mode selects the workflow, --initialize true/otherwise selects --screen vs
+   --training_screen / --test_screen, --outdir is where the step's files are published, --thetas / --distance_matrix /
+   --excludes feed NEXT_BATCH_PLATE).  launch_cmd done s (Some l) = the actions done so far followed by ALaunch s l;
+   launch_cmd done s None = TypeError (why 9) after `done`. *)
+
+(* `nextflow run main.nf --mode retrospective --screen S --name N --outdir D --initialize true -work-dir D/work` + extra words
+   is the launch LInit S for the job directory D *)
+Theorem C19_model_is_source_run_initial_plate : forall acts o scr nm extra,
+  src_run_initial_plate acts o scr nm extra = launch_cmd acts o (option_map LInit scr).
+Proof. exact src_run_initial_plate_is_model. Qed.
+Print Assumptions C19_model_is_source_run_initial_plate.
+
+(* --training_screen gets the training screen, --test_screen the test screen, --initialize false: LFirst training test *)
+Theorem C19_model_is_source_run_first_batch_plate : forall acts o tr te nm extra,
+  src_run_first_batch_plate acts o tr te nm extra = launch_cmd acts o (first_cmd tr te).
+Proof. exact src_run_first_batch_plate_is_model. Qed.
+Print Assumptions C19_model_is_source_run_first_batch_plate.
+
+Theorem C19_model_is_source_run_first_prospective_batch_plate : forall acts o scr nm extra,
+  src_run_first_prospective_batch_plate acts o scr nm extra = launch_cmd acts o (option_map LProsp scr).
+Proof. exact src_run_first_prospective_batch_plate_is_model. Qed.
+Print Assumptions C19_model_is_source_run_first_prospective_batch_plate.
+
+(* --mode next_plate --reveal true --screen S --thetas <t>/*/thetas*.h5 --distance_matrix <t>/*/distance_matrix_chunk*.h5
+   ... [--excludes=ids]: LNext S t ids (no --excludes word when excludes is None).  Both glob patterns are those of ONE
+   directory t: at the two call sites they are the two entries of the dict get_theta_and_dist_chunks(t) returned *)
+Theorem C19_model_is_source_run_subsequent_batch_plate : forall acts o scr t nm extra excl,
+  src_run_subsequent_batch_plate acts o scr (TGlob t) (DGlob t) nm extra excl = launch_cmd acts o (next_cmd scr t excl).
+Proof. exact src_run_subsequent_batch_plate_is_model. Qed.
+Print Assumptions C19_model_is_source_run_subsequent_batch_plate.
+
+(* non-vacuity: a concrete command line; and what check_call's meaning is sensitive to - thetas and distance chunks of two
+   different directories are no launch of the model *)
+Example C19_source_run_subsequent_example :
+  src_run_subsequent_batch_plate [AMkIter 1] (1, 2) (Some SInput) (TGlob (1, 0)) (DGlob (1, 0)) tt [7; 8] (Some [3; 4])
+  = SOk [AMkIter 1; ALaunch (1, 2) (LNext SInput (1, 0) [3; 4])]
+  /\ src_run_subsequent_batch_plate [] (1, 2) (Some SInput) (TGlob (1, 0)) (DGlob (0, 0)) tt [] None = SRaised [] 8
+  /\ src_run_subsequent_batch_plate [] (1, 2) None (TGlob (1, 0)) (DGlob (1, 0)) tt [] None = SRaised [] 9.
+Proof. vm_compute. repeat split; reflexivity. Qed.
+
+(* ---- dir_sort_key, translated: `int(os.path.basename(x).split("_")[1])` over path NAMES (list of components, each a string).
+   examine's configuration gives `dir_sort_key(x)` and `sorted(l, key=dir_sort_key)` the meaning iter_index / plate_index on
+   the model value of the path; these theorems tie that primitive to the source: on the name "<out>/iter_<i>" (resp.
+   "<out>/iter_<i>/plate_<j>", <i> the decimal numeral of a natural number) the translated function returns that index *)
+Theorem C19_model_is_source_dir_sort_key : forall (dir : fspath) (pre : str) (i : nat),
+  Forall (fun c => c <> 95%Z) pre -> src_dir_sort_key (dir ++ [numbered pre i]) = SOk (Z.of_nat i).
+Proof. exact src_dir_sort_key_numbered. Qed.
+Print Assumptions C19_model_is_source_dir_sort_key.
+
+Theorem C19_model_is_source_dir_sort_key_iter_index : forall (out : fspath) (d : iter_path),
+  (0 <= fst d)%Z -> src_dir_sort_key (iter_pathname out d) = SOk (iter_index d).
+Proof. exact src_dir_sort_key_is_iter_index. Qed.
+Print Assumptions C19_model_is_source_dir_sort_key_iter_index.
+
+Theorem C19_model_is_source_dir_sort_key_plate_index : forall (out : fspath) (p : plate_path),
+  (0 <= snd (fst p))%Z -> src_dir_sort_key (plate_pathname out p) = SOk (plate_index p).
+Proof. exact src_dir_sort_key_is_plate_index. Qed.
+Print Assumptions C19_model_is_source_dir_sort_key_plate_index.
+
+(* non-vacuity: "out/iter_12" has key 12 (numeric, two digits); a name without "_" is an IndexError, "iter_x" a ValueError *)
+Example C19_source_dir_sort_key_examples :
+  src_dir_sort_key [[111; 117; 116]; [105; 116; 101; 114; 95; 49; 50]]%Z = SOk 12%Z
+  /\ src_dir_sort_key [[105; 116; 101; 114]]%Z = SRaised [] 98%Z
+  /\ src_dir_sort_key [[105; 116; 101; 114; 95; 120]]%Z = SRaised [] 7%Z
+  /\ iter_pathname [[111; 117; 116]]%Z (12%Z, []) = [[111; 117; 116]; [105; 116; 101; 114; 95; 49; 50]]%Z.
+Proof. vm_compute. repeat split; reflexivity. Qed.
